@@ -47,6 +47,9 @@ func scenarios(tier string) []svc.Scenario {
 		// a conversion job that finds everything cached already (its tag was re-evaluated without a new match)
 		// while more work is queued behind it
 		{Name: "converter-fruitless-job", Converter: true, Program: []string{"import:P1+P2", "addtag:tag/p=cport:1", "addtag:tag/q=sport:80", "converters:tag/p=conv", "import:P5", "converters:tag/q=conv"}},
+		// the converter executable is deleted / rewritten while its conversion job is in flight
+		{Name: "converter-removed", Converter: true, Program: []string{"import:P1", "addtag:tag/p=cport:1", "converters:tag/p=conv", "convdel:conv", "import:P2"}},
+		{Name: "converter-restarted", Converter: true, Program: []string{"import:P1", "addtag:tag/p=cport:1", "converters:tag/p=conv", "convrestart:conv", "import:P3"}},
 		{Name: "two-tags", Program: []string{"addtag:tag/p=cport:1", "addtag:tag/d=cdata:foo3", "import:P1", "import:P3"}},
 	}
 	if tier == "thorough" {
